@@ -104,10 +104,92 @@ def run(ctx, rep):
                     check_thin(fx, f, key, m, rep)
                 else:
                     n_fwd += check_forwarding(fx, f, key, m, rep)
+    n_cg = check_cleared_guard(ctx.facts('default'), rep)
+    rep.floor('cleared-storage-guards', n_cg, 3)
     rep.floor('wrapper-impls', n_wrappers, 27)
     rep.floor('thin-wrapper-methods', n_thin_methods, 70)
     rep.floor('caching-wrapper-forwarded-queries', n_fwd, 10)
     rep.assume('leaf databases (EmptyDBTyped, BenchmarkDB, EthersDB, AlloyDB) may answer has_storage with the default')
+
+
+ACCOUNT_STATE = 'revm::db::in_memory_db::AccountState'
+# AccountState variants for which the wrapped database still holds the account's storage (from the
+# enum's documentation: NotExisting = no account, StorageCleared = cleared by the EVM)
+INNER_STORAGE_VALID = {'None', 'Touched'}
+
+
+def account_state_guard(fx, f, og, site):
+    """variants of AccountState under which `site` is reachable, from the dominating guards that test
+    `<cached account>.account_state` (directly by discriminant or through a predicate method)"""
+    from cfg import guards_of
+    from c21 import enum_predicate
+    adt = fx.adts.get(ACCOUNT_STATE)
+    if adt is None:
+        return None
+    byd = {v.get('discr', i): v['name'] for i, v in enumerate(adt['variants'])}
+    allv = set(byd.values())
+    allowed = None
+    for g in guards_of(f, og, site):
+        for o in g.discr:
+            r = o.root
+            vs = None
+            if r[0] == 'discr' and all(x.path[-1:] == ('.account_state',) for x in r[1]):
+                if 'otherwise' in g.vals:
+                    listed = {byd.get(v) for v, _ in g.term.d['arms']}
+                    mine = {byd.get(v) for v in g.vals if v != 'otherwise'}
+                    vs = (allv - listed) | mine
+                else:
+                    vs = {byd.get(v) for v in g.vals}
+            elif r[0] == 'call' and r[1].startswith(ACCOUNT_STATE + '::'):
+                t = f.blocks[r[2]].term
+                ao = og.of_operand(t.args[0])
+                if all(x.path[-1:] == ('.account_state',) for x in ao):
+                    pf = fx.fns.get(r[1])
+                    tb = enum_predicate(fx, pf, ACCOUNT_STATE) if pf is not None else None
+                    tv = g.truth()
+                    if tb is not None and tv is not None:
+                        vs = {k for k, v in tb.items() if v == tv}
+            if vs is not None:
+                allowed = vs if allowed is None else (allowed & vs)
+    return allowed
+
+
+def check_cleared_guard(fx, rep, rule='R4-cleared-storage-agreement', only=None):
+    """CacheDB: whenever a storage-type query is forwarded for an account that is in the cache, it is
+    forwarded exactly for the account states in which the wrapped database is still authoritative;
+    the sibling methods (storage, storage_ref, has_storage_ref) must agree on that set."""
+    n = 0
+    for f in fx.fns_all:
+        if not (f.impl_self and f.impl_self.startswith('revm::db::in_memory_db::CacheDB') and f.impl_trait and f.impl_trait.endswith(DB_TRAITS)):
+            continue
+        if f.name not in ('storage', 'storage_ref', 'has_storage', 'has_storage_ref'):
+            continue
+        if only and f.name not in only:
+            continue
+        og = Origins(f, fx)
+        guarded = 0
+        for bi, t in family_calls(f):
+            inner = t.callee.split('::')[-1]
+            if base_name(inner) not in ('storage', 'has_storage'):
+                continue
+            recv = og.of_operand(t.args[0])
+            if not all(o.path[-1:] == ('.db',) for o in recv):
+                continue   # delegation to the sibling impl on self, not to the wrapped database
+            allowed = account_state_guard(fx, f, og, bi)
+            if allowed is None:
+                continue   # account not cached on this path
+            guarded += 1
+            n += 1
+            key = 'CacheDB::%s->%s' % (f.name, inner)
+            if allowed == INNER_STORAGE_VALID:
+                rep.ok(rule, key, 'forwarded iff account_state in %s' % sorted(allowed))
+            else:
+                rep.violation(rule, key,
+                              'CacheDB::%s asks the wrapped database about a cached account when account_state is in %s; the wrapped data is authoritative exactly for %s (siblings disagree)' % (
+                                  f.name, sorted(allowed), sorted(INNER_STORAGE_VALID)), f.where(bi))
+        if f.name in ('storage', 'storage_ref', 'has_storage_ref') and guarded == 0:
+            rep.violation(rule, 'CacheDB::%s:unguarded' % f.name, 'CacheDB::%s forwards storage queries for cached accounts without testing account_state' % f.name, f.where())
+    return n
 
 
 def family_calls(f):
